@@ -245,6 +245,7 @@ def merge(O, N, path=(), strict_domain=False):
             require_all_new(N, path, exceptions={path + r for r in removed} | {path})
             N.md = {**O.md, **N.md}
             return N
+    gone = []        # entries removed by this merge: taken out after all keys of N have been matched (positions of a list stay put meanwhile)
     for k, v in N.items():
         child = O.get(k)
         if child is None:
@@ -262,15 +263,17 @@ def merge(O, N, path=(), strict_domain=False):
         r = merge(child, v, path + (k,), strict_domain)
         if was_composed:
             if r.falsy() and not (r.prio > v.prio) and v.xdel:
-                _remove(O, kk)
+                gone.append(kk)
             else:
                 _set(O, kk, r)
         elif r is not child:
             require_all_new(r, path + (k,), include_self=False)
             if r.falsy() and r.xdel:
-                _remove(O, kk)
+                gone.append(kk)
             else:
                 _set(O, kk, r)
+    for kk in (sorted(set(gone), reverse=True) if O.kind == 'seq' else gone):
+        _remove(O, kk)
     if N.prio >= O.prio:
         O.prio, O.xdel = N.prio, N.xdel
         O.md = {**O.md, **N.md}
